@@ -97,7 +97,7 @@ template<typename A>
 hll_sketch_alloc<A>& hll_sketch_alloc<A>::operator=(const hll_sketch_alloc<A>& other) {
   // copy first: other may be *this, and copy() may throw
   HllSketchImpl<A>* impl_copy = other.sketch_impl->copy();
-  sketch_impl->get_deleter()(sketch_impl);
+  if (sketch_impl != nullptr) sketch_impl->get_deleter()(sketch_impl);
   sketch_impl = impl_copy;
   return *this;
 }
